@@ -13,10 +13,13 @@ they came through `from_slice`.
   (a borrow-and-add-back subtraction, which reduces only when the operands are reduced); `mul` = two Montgomery reductions
   (`montgomery_reduce(mul_internal(a, b))`, then the same with `RR = R² mod l`, `R = 2^260`). That these compute the sum /
   product modulo `l` ON ACCEPTED KEYS is a theorem (`Proofs/KeyOps.lean`), not the definition.
-Point arithmetic is that of curve25519-dalek (a dependency). It is NOT modelled independently: `keyAdd/keySub/keySmul/keyPubOf`
-call the extended-coordinate formulas `Ed.add/Ed.sub/Ed.smul` and the compression `Ed.encodePt` of the reference
-`Ref/Ed25519.lean` — the same functions the spec side of the driver calls. What is the model's own is the operand path
-(`point()` = the permissive decompression of the STORED bytes, no strict decoding, `none` = panic). -/
+Point arithmetic is that of curve25519-dalek (a dependency). ADDITION and SUBTRACTION are transcribed from dalek
+(edwards.rs `Add/Sub for &EdwardsPoint` = `(self ± &other.as_projective_niels()).as_extended()`, backend/serial/curve_models:
+`ProjectiveNielsPoint`, `CompletedPoint`): `toNiels`, `dalekAdd`, `dalekSub` below, written separately from `Ed.add` / `Ed.sub`
+(that they compute the same coordinates is a theorem: `Proofs/KeyOps.lean dalekAdd_eq`, `dalekSub_eq`). SCALAR MULTIPLICATION
+(`keySmul`, `keyPubOf`: dalek uses signed radix-16 windows / a precomputed base-point table) and the final `compress()` are NOT
+modelled independently: they call `Ed.smul` and `Ed.encodePt` of the reference `Ref/Ed25519.lean` — the same functions the spec side
+of the driver calls. The operand path (`point()` = the permissive decompression of the STORED bytes, `none` = panic) is the model's own. -/
 namespace Monero.Keys
 open Ed
 
@@ -28,16 +31,42 @@ def keyPoint (k : Bytes) : Option Pt := if k.length != 32 then none else decompr
 /-- `PublicKey { point: point.compress() }` (stored bytes) -/
 def keyOfPoint (P : Pt) : Bytes := encodePt P
 
+/-- dalek `ProjectiveNielsPoint` (Y+X, Y−X, Z, 2dT) -/
+structure Niels where (ypx ymx z t2d : Nat)
+/-- `EdwardsPoint::as_projective_niels` (`constants::EDWARDS_D2` = 2d mod p) -/
+def toNiels (P : Pt) : Niels := ⟨(P.y + P.x) % p, (P.y + p - P.x) % p, P.z, P.t * (2 * d % p) % p⟩
+/-- `CompletedPoint::as_extended` of ((X : Z), (Y : T)) -/
+def completedToExtended (X Y Z T : Nat) : Pt := ⟨X * T % p, Y * Z % p, Z * T % p, X * Y % p⟩
+/-- `&EdwardsPoint + &EdwardsPoint` = `(self + &other.as_projective_niels()).as_extended()` -/
+def dalekAdd (a b : Pt) : Pt :=
+  let n := toNiels b
+  let PP := (a.y + a.x) % p * n.ypx % p
+  let MM := (a.y + p - a.x) % p * n.ymx % p
+  let TT2d := a.t * n.t2d % p
+  let ZZ := a.z * n.z % p
+  let ZZ2 := (ZZ + ZZ) % p
+  completedToExtended ((PP + p - MM) % p) ((PP + MM) % p) ((ZZ2 + TT2d) % p) ((ZZ2 + p - TT2d) % p)
+/-- `&EdwardsPoint - &EdwardsPoint` = `(self - &other.as_projective_niels()).as_extended()` (the Niels coordinates of `other`
+are used crosswise and the roles of Z and T of the completed point are exchanged; `other` is not negated) -/
+def dalekSub (a b : Pt) : Pt :=
+  let n := toNiels b
+  let PM := (a.y + a.x) % p * n.ymx % p
+  let MP := (a.y + p - a.x) % p * n.ypx % p
+  let TT2d := a.t * n.t2d % p
+  let ZZ := a.z * n.z % p
+  let ZZ2 := (ZZ + ZZ) % p
+  completedToExtended ((PM + p - MP) % p) ((PM + MP) % p) ((ZZ2 + p - TT2d) % p) ((ZZ2 + TT2d) % p)
+
 /-- `Add<PublicKey> for PublicKey` and its three reference forms -/
 def keyAdd (a b : Bytes) : Option Bytes :=
   match keyPoint a, keyPoint b with
-  | some P, some Q => some (keyOfPoint (Ed.add P Q))
+  | some P, some Q => some (keyOfPoint (dalekAdd P Q))
   | _, _ => none
 
 /-- `Sub<PublicKey> for PublicKey` and its three reference forms -/
 def keySub (a b : Bytes) : Option Bytes :=
   match keyPoint a, keyPoint b with
-  | some P, some Q => some (keyOfPoint (Ed.sub P Q))
+  | some P, some Q => some (keyOfPoint (dalekSub P Q))
   | _, _ => none
 
 /-- `Mul<&PublicKey> for PrivateKey`, `Mul<&PublicKey> for &PrivateKey`, `Mul<&PrivateKey> for PublicKey` (scalar bytes `s`) -/
